@@ -152,6 +152,9 @@ class AbstractSpecification(object):
 
     def parse(self):
         self.ast.parse()
+        # the interpreter reads the syntax tree again at the next evaluation: a monitor that has already been
+        # updated would otherwise look for the operations of the new assertions among those of the old ones
+        self.set_ast_flag = False
 
     # forwarding to interpreter
     def set_sampling_period(self, sampling_period=int(1), unit='s', tolerance=float(0.1)):
